@@ -18,6 +18,7 @@ CONSTANTS
   AtomicPT = FALSE
   AtomicPut = TRUE
   NotifyAfterStore = TRUE
+  DrainThenSend = TRUE
   AtomicSubscribe = TRUE
 INVARIANTS Linearizable
 SYMMETRY Sym
